@@ -207,19 +207,19 @@ func c14Body(o c14Opts) func() {
 		}
 		switch o.closer {
 		case "client":
-			ths = append(ths, vrt.GoProc("closer", 1, func() { p.c.Close() }))
+			ths = append(ths, vrt.GoProc("closer", 1, func() { vrt.AnyMoment(); p.c.Close() }))
 		case "server":
 			victim = p.s
-			ths = append(ths, vrt.GoProc("closer", 2, func() { p.s.Close() }))
+			ths = append(ths, vrt.GoProc("closer", 2, func() { vrt.AnyMoment(); p.s.Close() }))
 		case "both":
-			ths = append(ths, vrt.GoProc("closer-c", 1, func() { p.c.Close() }), vrt.GoProc("closer-s", 2, func() { p.s.Close() }))
+			ths = append(ths, vrt.GoProc("closer-c", 1, func() { vrt.AnyMoment(); p.c.Close() }), vrt.GoProc("closer-s", 2, func() { vrt.AnyMoment(); p.s.Close() }))
 		case "double-client":
-			ths = append(ths, vrt.GoProc("closer1", 1, func() { p.c.Close() }), vrt.GoProc("closer2", 1, func() { p.c.Close(); p.c.Close() }))
+			ths = append(ths, vrt.GoProc("closer1", 1, func() { vrt.AnyMoment(); p.c.Close() }), vrt.GoProc("closer2", 1, func() { vrt.AnyMoment(); p.c.Close(); p.c.Close() }))
 		case "kill-server":
-			ths = append(ths, vrt.GoProc("killer", 0, func() { p.killProc(2) }))
+			ths = append(ths, vrt.GoProc("killer", 0, func() { vrt.AnyMoment(); p.killProc(2) }))
 		case "kill-client":
 			victim = p.s
-			ths = append(ths, vrt.GoProc("killer", 0, func() { p.killProc(1) }))
+			ths = append(ths, vrt.GoProc("killer", 0, func() { vrt.AnyMoment(); p.killProc(1) }))
 		}
 		vrt.WaitThreads(ths...)
 		vrt.WaitIdle(2 * vrt.Second)
